@@ -17,7 +17,7 @@ from ..core import EventLog, RunResult, Violation, call, exc_name
 PROP = "C01"
 TIERS = {"quick": 20000, "thorough": 2000000}
 WALL_CAP = {"quick": 900, "thorough": 8 * 3600}
-SHRINK_BUDGET = 500
+SHRINK_BUDGET = 250
 
 COMPONENTS = {
     "real": ["biotite.structure.atoms (Atom, AtomArray, AtomArrayStack, array, stack, concatenate, repeat, from_template)",
